@@ -375,7 +375,10 @@ func (an *Analysis) handleStructFields(typ *types.Struct, ctx context) []StructF
 		if field.Embedded() {
 			if st, isStruct := fieldType.(*Struct); isStruct {
 				log.Printf("gomacro: embedded struct field %s will be flattened", field.Name())
-				out = append(out, st.Fields...)
+				for _, promoted := range st.Fields {
+					promoted.depth++
+					out = append(out, promoted)
+				}
 				continue
 			} else {
 				log.Printf("gomacro: field %s: embedding will be ignored", field.Name())
@@ -383,6 +386,62 @@ func (an *Analysis) handleStructFields(typ *types.Struct, ctx context) []StructF
 		}
 
 		out = append(out, StructField{Type: fieldType, Field: field, Tag: tag})
+	}
+	return hideShadowedFields(out)
+}
+
+// hideShadowedFields applies the rule of encoding/json to the fields sharing
+// one JSON name after flattening : the least nested one is kept, a tagged field
+// winning over untagged ones at the same depth; the name is dropped if several remain.
+func hideShadowedFields(fields []StructField) []StructField {
+	isSerialized := func(f StructField) bool { return f.Field.Exported() && f.Tag.Get("json") != "-" }
+	byName := make(map[string][]int)
+	for i, f := range fields {
+		if isSerialized(f) {
+			byName[f.JSONName()] = append(byName[f.JSONName()], i)
+		}
+	}
+	hidden := make(map[int]bool)
+	for _, indices := range byName {
+		if len(indices) < 2 {
+			continue
+		}
+		minDepth := fields[indices[0]].depth
+		for _, i := range indices {
+			if d := fields[i].depth; d < minDepth {
+				minDepth = d
+			}
+		}
+		var candidates, tagged []int
+		for _, i := range indices {
+			if fields[i].depth != minDepth {
+				continue
+			}
+			candidates = append(candidates, i)
+			if name, _, _ := strings.Cut(fields[i].Tag.Get("json"), ","); name != "" {
+				tagged = append(tagged, i)
+			}
+		}
+		keep := -1
+		if len(candidates) == 1 {
+			keep = candidates[0]
+		} else if len(tagged) == 1 {
+			keep = tagged[0]
+		}
+		for _, i := range indices {
+			if i != keep {
+				hidden[i] = true
+			}
+		}
+	}
+	if len(hidden) == 0 {
+		return fields
+	}
+	var out []StructField
+	for i, f := range fields {
+		if !hidden[i] {
+			out = append(out, f)
+		}
 	}
 	return out
 }
